@@ -12,6 +12,7 @@ import (
 	"sort"
 	"strconv"
 	"strings"
+	"sync"
 	"syscall"
 	"testing"
 	"time"
@@ -99,6 +100,7 @@ type c08World struct {
 	s         *Store
 	pool      *c08Pool
 	model     [c08Bases]c08Rec
+	stale     [c08Bases]*BundleItem // the item as a caller fetched it before the record was deleted / swept
 	trace     []string
 }
 
@@ -207,7 +209,21 @@ func (w *c08World) apply(op c08Op) bool {
 				w.fail("c08.update-error", "Update(record %d): %v", k, err)
 			}
 		}
+	case "staleupdate":
+		// a caller that fetched the item before it was deleted writes its copy back afterwards
+		// (routing's BundleDescriptor.Sync does exactly this); the record must stay deleted
+		if w.modelOnly || m.exists || w.stale[k] == nil {
+			return false
+		}
+		bi := *w.stale[k]
+		bi.Pending = op.Flag
+		_ = w.s.Update(bi) // an error is the expected answer; the lookup below is the oracle
 	case "delete":
+		if !w.modelOnly && m.exists {
+			if bi, err := w.s.QueryId(id); err == nil {
+				w.stale[k] = &bi
+			}
+		}
 		if !w.modelOnly {
 			if err := w.s.Delete(id); err != nil {
 				w.fail("c08.delete-error", "Delete(record %d): %v", k, err)
@@ -216,6 +232,14 @@ func (w *c08World) apply(op c08Op) bool {
 		*m = c08Rec{}
 	case "sweep":
 		if !w.modelOnly {
+			now := time.Now()
+			for i := range w.model {
+				if w.model[i].exists && w.model[i].expires.Before(now) {
+					if bi, err := w.s.QueryId(w.pool.base[i].ID()); err == nil {
+						w.stale[i] = &bi
+					}
+				}
+			}
 			w.s.DeleteExpired()
 		}
 		now := time.Now()
@@ -381,7 +405,7 @@ func c08Run(c *vk.Ctx, ops []c08Op) {
 }
 
 func genC08(t *rapid.T) []c08Op {
-	ops := []string{"push", "push", "frag", "frag", "frag", "frag", "pending", "prop", "expire", "delete", "sweep", "reopen"}
+	ops := []string{"push", "push", "frag", "frag", "frag", "frag", "pending", "prop", "expire", "delete", "delete", "staleupdate", "staleupdate", "sweep", "reopen"}
 	return rapid.SliceOfN(rapid.Custom(func(t *rapid.T) c08Op {
 		return c08Op{Op: rapid.SampledFrom(ops).Draw(t, "op"), K: rapid.IntRange(0, c08Bases-1).Draw(t, "k"), F: rapid.IntRange(0, 2).Draw(t, "f"),
 			I: rapid.IntRange(0, 7).Draw(t, "i"), Flag: rapid.Bool().Draw(t, "flag"), Shift: rapid.IntRange(0, 9).Draw(t, "shift")}
@@ -391,7 +415,7 @@ func genC08(t *rapid.T) []c08Op {
 func TestVerifC08Histories(t *testing.T) {
 	log.SetOutput(io.Discard)
 	u := vk.Unit{Property: "C08", Name: "c08.histories", Quick: 400, Thorough: 6000,
-		Rule: "histories of 1..16 operations over {push bundle, push fragment (of 3 fragmentations with different limits of 4 base bundles -> duplicates and overlaps), update pending flag / a property / expiry (+-2 h), delete, expiry sweep, close+reopen} on a real store (badger on tmpfs); after every step every observable (QueryId, KnowsBundle, each part loaded and re-serialised, Pending, properties, QueryPending, IsComplete, reassembled payload) is compared with an in-memory reference map; non-trivial = a delete or sweep followed by further steps, or a reopen with >= 1 record; distinct by case hash"}
+		Rule: "histories of 1..16 operations over {push bundle, push fragment (of 3 fragmentations with different limits of 4 base bundles -> duplicates and overlaps), update pending flag / a property / expiry (+-2 h), delete, expiry sweep, write-back of an item fetched before its record was deleted or swept, close+reopen} on a real store (badger on tmpfs); after every step every observable (QueryId, KnowsBundle, each part loaded and re-serialised, Pending, properties, QueryPending, IsComplete, reassembled payload) is compared with an in-memory reference map; non-trivial = a delete or sweep followed by further steps, or a reopen with >= 1 record; distinct by case hash"}
 	vk.Check(t, u, genC08, c08Run)
 }
 
@@ -896,6 +920,128 @@ func TestVerifC08Concurrent(t *testing.T) {
 		}
 		if len(bi.Parts) != len(want) {
 			c.Failf("c08.concurrent-lost-fragment", "record lists %d parts, %d distinct fragments were pushed", len(bi.Parts), len(want))
+		}
+	})
+}
+
+// ---------------------------------------------------------------------------------------
+// concurrent pushes, unforced: several workers push runs of fragments of the same bundle
+
+type c08StressCase struct {
+	K       int   `json:"k"`
+	Workers int   `json:"workers"`
+	Frags   int   `json:"frags"`  // number of fragments the payload is cut into
+	First   bool  `json:"first"`  // the first fragment is pushed beforehand
+	Assign  []int `json:"assign"` // worker of each fragment
+	Rounds  int   `json:"rounds"` // independent bundles (distinct IDs) treated this way one after the other
+}
+
+func TestVerifC08Stress(t *testing.T) {
+	log.SetOutput(io.Discard)
+	u := vk.Unit{Property: "C08", Name: "c08.concurrent-stress", Quick: 40, Thorough: 1500,
+		Rule: "unforced schedules: 2..6 workers each push a run of fragments (6..30 fragments in total, generated assignment) of one bundle concurrently, optionally after the first fragment was pushed; repeated for 3..12 bundles per case; oracle: every Push returns nil, afterwards the record lists every fragment exactly once, each part loads byte-identically, the record is complete and reassembles to the original payload; non-trivial = >= 3 workers and >= 12 fragments; distinct by case hash. The schedule is the runtime's (GOMAXPROCS = all cores); a failure is reproducible only statistically and the case file records the parameters"}
+	vk.Check(t, u, func(t *rapid.T) c08StressCase {
+		cs := c08StressCase{K: rapid.IntRange(0, 3).Draw(t, "k"), Workers: rapid.IntRange(2, 6).Draw(t, "workers"), Frags: rapid.IntRange(6, 30).Draw(t, "frags"),
+			First: rapid.Bool().Draw(t, "first"), Rounds: rapid.IntRange(3, 12).Draw(t, "rounds")}
+		mode := rapid.IntRange(0, 2).Draw(t, "mode")
+		for i := 0; i < cs.Frags; i++ {
+			switch mode {
+			case 0:
+				cs.Assign = append(cs.Assign, i%cs.Workers)
+			case 1:
+				cs.Assign = append(cs.Assign, i*cs.Workers/cs.Frags)
+			default:
+				cs.Assign = append(cs.Assign, rapid.IntRange(0, cs.Workers-1).Draw(t, "w"))
+			}
+		}
+		return cs
+	}, func(c *vk.Ctx, cs c08StressCase) {
+		if cs.Workers >= 3 && cs.Frags >= 12 {
+			c.NonTrivial()
+		}
+		dir := c08Scratch()
+		defer os.RemoveAll(dir)
+		s, err := NewStore(dir)
+		if err != nil {
+			c.Failf("c08.harness", "NewStore: %v", err)
+		}
+		defer s.Close()
+		for r := 0; r < cs.Rounds; r++ {
+			payload := vk.PayloadBytes(cs.Frags*16, uint64(r*7+cs.K+1))
+			b, err := bpv7.Builder().CRC(bpv7.CRC32).Source(fmt.Sprintf("dtn://stress%d/app", cs.K)).Destination("dtn://dst/app").
+				CreationTimestampNow().Lifetime("1h").BundleCtrlFlags(0).PayloadBlock(payload).Build()
+			if err != nil {
+				c.Failf("c08.harness", "build: %v", err)
+			}
+			b.PrimaryBlock.CreationTimestamp[1] = uint64(r)
+			// cut by hand into cs.Frags fragments of 16 bytes
+			var frs []bpv7.Bundle
+			for i := 0; i < cs.Frags; i++ {
+				f := b
+				f.PrimaryBlock.BundleControlFlags |= bpv7.IsFragment
+				f.PrimaryBlock.FragmentOffset = uint64(i * 16)
+				f.PrimaryBlock.TotalDataLength = uint64(len(payload))
+				pb, _ := b.PayloadBlock()
+				f.CanonicalBlocks = []bpv7.CanonicalBlock{{BlockNumber: pb.BlockNumber, BlockControlFlags: pb.BlockControlFlags, CRCType: pb.CRCType,
+					Value: bpv7.NewPayloadBlock(payload[i*16 : (i+1)*16])}}
+				if err := f.CheckValid(); err != nil {
+					c.Failf("c08.harness", "hand-made fragment invalid: %v", err)
+				}
+				frs = append(frs, f)
+			}
+			start := 0
+			if cs.First {
+				if err := s.Push(frs[0]); err != nil {
+					c.Failf("c08.push-error", "Push: %v", err)
+				}
+				start = 1
+			}
+			var wg sync.WaitGroup
+			errs := make([]error, cs.Frags)
+			gate := make(chan struct{})
+			for w := 0; w < cs.Workers; w++ {
+				wg.Add(1)
+				go func(w int) {
+					defer wg.Done()
+					<-gate
+					for i := start; i < cs.Frags; i++ {
+						if cs.Assign[i] == w {
+							errs[i] = s.Push(frs[i])
+						}
+					}
+				}(w)
+			}
+			close(gate)
+			wg.Wait()
+			for i, e := range errs {
+				if e != nil {
+					c.Failf("c08.concurrent-push-error", "bundle %d: concurrent Push of fragment %d returns an error: %v", r, i, e)
+				}
+			}
+			bi, err := s.QueryId(b.ID())
+			if err != nil {
+				c.Failf("c08.lookup", "bundle %d: record not found after concurrent pushes: %v", r, err)
+			}
+			got := map[uint64]int{}
+			for _, p := range bi.Parts {
+				pb, err := p.Load()
+				if err != nil {
+					c.Failf("c08.part-unreadable", "bundle %d: a part does not load after concurrent pushes: %v", r, err)
+				}
+				off, n := fragInfo(&pb)
+				got[off]++
+				if n != 16 || !bytes.Equal(enc(&pb), enc(&frs[off/16])) {
+					c.Failf("c08.part-differs", "bundle %d: the part at offset %d does not read back identically", r, off)
+				}
+			}
+			for i := 0; i < cs.Frags; i++ {
+				if got[uint64(i*16)] != 1 {
+					c.Failf("c08.concurrent-lost-fragment", "bundle %d: %d workers pushed %d fragments concurrently; the fragment at offset %d is listed %d times (%d parts listed); every Push had returned nil", r, cs.Workers, cs.Frags, i*16, got[uint64(i*16)], len(bi.Parts))
+				}
+			}
+			if !bi.IsComplete() {
+				c.Failf("c08.complete", "bundle %d: all %d fragments are stored but the record does not report complete", r, cs.Frags)
+			}
 		}
 	})
 }
